@@ -205,3 +205,77 @@ def global_writes(repo: Repo, modules: t.Iterable[Module] | None = None) -> list
 def describe(w: GWrite) -> str:
     where = w.func.key if w.func else f"{w.module.name}:<module/class body>"
     return f"{where} {w.kind} {w.target} :: {norm(w.node, 90)}"
+
+
+# --------------------------------------------------------------------------------------
+# Container-parameter mutation summaries for helper functions (in-place helpers)
+# --------------------------------------------------------------------------------------
+
+
+def mutated_params(fn: ast.FunctionDef | ast.AsyncFunctionDef) -> set[str]:
+    """Parameters whose (container) object may be mutated in place by `fn`:
+    item store / delete / augmented item assignment / mutator call on the parameter or on a
+    local alias derived from it (x = p, x = p or {}, x = a[k], x = a.get(k), x = a.setdefault(k, ..),
+    conditional expressions thereof).  Flow-insensitive, intraprocedural."""
+    a = fn.args
+    params = [x.arg for x in a.posonlyargs + a.args + a.kwonlyargs]
+    alias: dict[str, set[str]] = {p: {p} for p in params}  # local -> params it may alias (into)
+
+    def sources(e: ast.AST) -> set[str]:
+        if isinstance(e, ast.Name):
+            return set(alias.get(e.id, set()))
+        if isinstance(e, ast.IfExp):
+            return sources(e.body) | sources(e.orelse)
+        if isinstance(e, ast.BoolOp):
+            out: set[str] = set()
+            for v in e.values:
+                out |= sources(v)
+            return out
+        if isinstance(e, ast.Subscript):
+            return sources(e.value)
+        if isinstance(e, ast.Call) and isinstance(e.func, ast.Attribute) and e.func.attr in ("get", "setdefault", "pop"):
+            return sources(e.func.value)
+        if isinstance(e, ast.NamedExpr):
+            return sources(e.value)
+        return set()
+
+    changed = True
+    n = 0
+    while changed and n < 10:
+        changed = False
+        n += 1
+        for st in walk_no_nested_stmts(fn):
+            tgt_val: list[tuple[ast.AST, ast.AST]] = []
+            if isinstance(st, ast.Assign):
+                for tg in st.targets:
+                    tgt_val.append((tg, st.value))
+            elif isinstance(st, ast.AnnAssign) and st.value is not None:
+                tgt_val.append((st.target, st.value))
+            elif isinstance(st, ast.NamedExpr):
+                tgt_val.append((st.target, st.value))
+            elif isinstance(st, (ast.For, ast.AsyncFor)):
+                pass
+            for tg, val in tgt_val:
+                if isinstance(tg, ast.Name):
+                    src = sources(val)
+                    cur = alias.setdefault(tg.id, set())
+                    if not src <= cur:
+                        cur |= src
+                        changed = True
+    out: set[str] = set()
+    for node in walk_no_nested_stmts(fn):
+        if isinstance(node, ast.Subscript) and isinstance(node.ctx, (ast.Store, ast.Del)):
+            out |= sources(node.value)
+        if isinstance(node, ast.Call) and isinstance(node.func, ast.Attribute) and node.func.attr in MUTATORS:
+            out |= sources(node.func.value)
+    return out & set(params)
+
+
+def walk_no_nested_stmts(fn: ast.AST) -> t.Iterator[ast.AST]:
+    stack = list(ast.iter_child_nodes(fn))
+    while stack:
+        n = stack.pop()
+        yield n
+        if isinstance(n, (ast.FunctionDef, ast.AsyncFunctionDef, ast.ClassDef, ast.Lambda)):
+            continue
+        stack.extend(ast.iter_child_nodes(n))
